@@ -721,6 +721,10 @@ func (fx *FnExec) builtin(b *ssa.Builtin, cc *ssa.CallCommon, instr ssa.Instruct
 				out.L = append(out.L, sSto(s.L[2+i], s.L[1], one.L[i]))
 			}
 			fx.assume(sLe(s.L[1], "9223372036854775806"))
+			if isSlice(st) && (typeKey(et) == "byte" || typeKey(et) == "uint8") && len(out.L) == 3 {
+				// the bytes of append(b, x) are the bytes of b followed by x
+				fx.assume(sEq(app("bytes_str", out.L[2], out.L[1]), app("str_concat", app("bytes_str", s.L[2], s.L[1]), app("byte1", one.L[0]))))
+			}
 			return out, nil
 		}
 		// general case: concatenation, described by quantified facts
